@@ -1,8 +1,10 @@
 """C04 -- serialization round-trips: print then parse gives an equal document, printing is a
 fixpoint after one round.
 
-Proof: Properties/C04.v (ladder of `print_parse_partial_<rung>` lemmas over the model
-Display . Info . ParseActions . G_xml; the full statement is kept there).
+Proof: Properties/C04.v: `print_parse` (the full statement, for every accepted input) over the model
+Display . Info . ParseActions . G_xml = `print_parse_partial_printable` (print then parse, for
+every `printable` document; ladder of `print_parse_partial_<rung>` lemmas) composed with
+`accepted_is_printable` (inversion of every production + preservation by XmlDocument::new).
 Tie: `parse` domain -- the extracted model (Model.Display.pipeline) and the real crates print the
 same observation line (infoset dump, compact and pretty serialisation, re-parse verdicts) for
 every generated document.
